@@ -294,6 +294,7 @@ class World:
     def _run_program(self):
         r, rng = self.r, self.rng
         classes = {}      # label -> class
+        self.cfg_objects = {}
         insts = {}        # label -> module
         snaps = {}        # label -> snapshot
         pristine = {}     # (class label, cfg json) -> snapshot of the first instance
@@ -377,8 +378,15 @@ class World:
                 cfg = self.gen_cfg(cls) if rng.random() < 0.5 else {}
                 ilab = f'i{len(insts)}'
                 cfgkey = (clab, json.dumps(cfg, sort_keys=True))
+                earlier = [k for k in pristine if k[0] == clab and k[1] != '{}']
+                if earlier and rng.random() < 0.5:
+                    cfgkey = rng.choice(earlier)          # a later instance with a configuration used before
+                    cfg = json.loads(cfgkey[1])
+                # the same configuration OBJECT is used for every instance of this (class, configuration): creating a module
+                # must not consume or change the configuration it was given
+                cfgobj = self.cfg_objects.setdefault(cfgkey, json.loads(cfgkey[1]))
                 try:
-                    m = self.nodes.make_module(cls, ilab, **json.loads(cfgkey[1]))
+                    m = self.nodes.make_module(cls, ilab, **cfgobj)
                 except Exception as e:
                     log.append(['instantiate-failed', ilab, clab, cfg, f'{type(e).__name__}'])
                     if not frame(('instantiate-failed', ilab), None):
